@@ -238,9 +238,12 @@ func c18Path(p []c18Frag) string {
 			fmt.Fprintf(&b, "[%d]", f.I)
 		case "wild":
 			b.WriteString("[*]")
+		case "desc":
+			b.WriteString("..")
 		}
 	}
-	return b.String()
+	// ($..a, not $...a: a key directly behind a descent is written without its dot)
+	return strings.ReplaceAll(b.String(), "...", "..")
 }
 
 func c18Any(s *slip.Scope, name string) (any, bool) {
@@ -280,6 +283,8 @@ func c18(args []string) {
 				o = h.Eval(s, "(bag-get b bpath)")
 			case "has":
 				o = h.Eval(s, "(bag-has b bpath)")
+			case "walk":
+				o = h.Eval(s, "(let ((acc nil)) (bag-walk b (lambda (x) (setq acc (cons x acc))) bpath) (reverse acc))")
 			case "set":
 				s.Let(slip.Symbol("bval"), c18Lisp(c18Tree(op.V)))
 				o = h.Eval(s, "(bag-set b bval bpath)")
@@ -291,6 +296,14 @@ func c18(args []string) {
 				step["st"] = "err:" + o.Class + ": " + o.Msg
 			} else if op.Op == "get" || op.Op == "has" {
 				step["res"] = c18View(o.Val)
+			} else if op.Op == "walk" {
+				views := []any{}
+				if l, ok := o.Val.(slip.List); ok {
+					for _, x := range l {
+						views = append(views, c18View(x))
+					}
+				}
+				step["res"] = h.V{"k": "views", "v": views}
 			}
 			if a, ok := c18Any(s, "b"); ok {
 				step["after"] = c18Project(a)
